@@ -49,6 +49,7 @@ def observer(got, pred, sp, call, sg, prog, ctx, part):
             bad('compile_hessian raises %s' % type(e).__name__, {'V': V})
             return
         bump(part, 'closures', getattr(fn, '__name__', '?'))
+        pb = progjudge.PointBuffer()
         for pt in pts:
             try:
                 want = [[progjudge.oracle(H.get((V[i], V[j]), ZERO), pt, ctx.pars) for j in range(n)] for i in range(n)]
@@ -57,7 +58,7 @@ def observer(got, pred, sp, call, sg, prog, ctx, part):
                 continue
             vals = progjudge.fvals(pt)
             try:
-                have = np.asarray(fn(np.array([float(pt[v]) for v in V], dtype=float)), dtype=float)
+                have = np.asarray(fn(pb.at([float(pt[v]) for v in V])), dtype=float)
             except Exception as e:
                 bad('compile_hessian callable raises %s' % type(e).__name__, {'V': V})
                 return
@@ -130,6 +131,8 @@ def param_step(got, den, sp, names, vm, ctx, part, bad):
 def run(report, tier):
     apirun.run_config(report, 'MC_C01', observer=observer, report_kinds=('S',), overrides={'Want': '<-MC_WantH'})
     apirun.run_config(report, 'MC_C01M', observer=observer, report_kinds=('S',), overrides={'Want': '<-MC_WantH'})
+    if tier == 'thorough':      # one call deeper over a reduced alphabet (3 functions, 2 literals)
+        apirun.run_config(report, 'MC_C01', observer=observer, report_kinds=('S',), overrides=dict({'MaxCalls': 3, 'Fns': '<-MC_FnsSmall', 'ScalarLits': '<-MC_ScalarLitsSmall'}, Want='<-MC_WantH'), tag='deep')
     return report.finish(
         rule='every Api program of <= MaxCalls calls with a scalar result over <= 3 variables: compute_hessian (every entry, both '
              'triangles) and compile_hessian for every permutation / superset variable list at up to 3 points regular for the '
